@@ -55,7 +55,8 @@ def build(case, x0=None):
     edges = []
     for s, t, w, sv in case["edges"]:
         sc, tc = case["nodes"][s][0], case["nodes"][t][0]
-        edges.append((f"n{s}/op{sc}/{'m' if sv else xname(case, sc)}", f"n{t}/op{tc}/r", None, {"weight": float(Fr(w))}))
+        edges.append((f"n{s}/op{sc}/{'m' if sv else xname(case, sc)}", f"n{t}/op{tc}/r", None,
+                      {} if w is None else {"weight": float(Fr(w))}))          # w None: the edge is written WITHOUT a weight entry
     return CircuitTemplate("c", nodes=nodes, edges=edges)
 
 def build_raw(case):
@@ -65,6 +66,111 @@ def build_raw(case):
     edges = [(s, t, None, {"weight": float(Fr(w))}) for s, t, w in case["redges"]]
     return CircuitTemplate("c", nodes=nodes, edges=edges)
 
+# ---- multi-operator node types (NOT modelled in Coq: real vec vs real non-vec vs the python unit-level sum) ----------
+# A node type = S operators in slots (each: state p, parameter k, input r, output p) + one M operator (state v, parameter c,
+# input p = sum of the S outputs of the node).  S operators of one form are structurally identical whatever their slot
+# (different operator names, same equations), so {S,S',M} and {S,M} differ only in the MULTIPLICITY of an operator hash.
+S_FORMS = ["p' = k*r - p", "p' = k*r - 2.0*p*p", "p' = r - k*p"]
+M_FORMS = ["v' = c*p - v", "v' = c*p*v - v + 0.5"]
+
+def build_mo(case):
+    from pyrates import OperatorTemplate, NodeTemplate, CircuitTemplate
+    sops, mops = {}, {}
+    def sop(form, slot):
+        if (form, slot) not in sops:
+            sops[(form, slot)] = OperatorTemplate(name=f"s{form}j{slot}", equations=[S_FORMS[form]],
+                                                  variables={"p": "output(0.0)", "k": 1.0, "r": "input(0.0)"})
+        return sops[(form, slot)]
+    def mop(form):
+        if form not in mops:
+            mops[form] = OperatorTemplate(name=f"m{form}", equations=[M_FORMS[form]],
+                                          variables={"v": "output(0.0)", "c": 1.0, "p": "input(0.0)"})
+        return mops[form]
+    nodes = {}
+    for ni, nd in enumerate(case["nodes"]):
+        ty = case["types"][nd["type"]]
+        ops = {}
+        for (form, slot), k in zip(ty["s"], nd["k"]):
+            ops[sop(form, slot)] = {"k": float(Fr(k))}
+        ops[mop(ty["m"])] = {"c": float(Fr(nd["c"]))}
+        nodes[f"n{ni}"] = NodeTemplate(f"n{ni}", operators=ops)
+    edges = []
+    for s_, t, j, w in case["edges"]:
+        mf = case["types"][case["nodes"][s_]["type"]]["m"]
+        form, slot = case["types"][case["nodes"][t]["type"]]["s"][j]
+        edges.append((f"n{s_}/m{mf}/v", f"n{t}/s{form}j{slot}/r", None, {} if w is None else {"weight": float(Fr(w))}))
+    return CircuitTemplate("c", nodes=nodes, edges=edges)
+
+def mo_vars(case):
+    """frontend state variables in a fixed order: per node its S states then v"""
+    out = []
+    for ni, nd in enumerate(case["nodes"]):
+        ty = case["types"][nd["type"]]
+        for form, slot in ty["s"]:
+            out.append((f"n{ni}", f"s{form}j{slot}", "p"))
+        out.append((f"n{ni}", f"m{ty['m']}", "v"))
+    return out
+
+def py_spec_mo(case, st):
+    vals = dict(zip(mo_vars(case), [Fr(v) for v in st]))
+    out = []
+    for ni, nd in enumerate(case["nodes"]):
+        ty = case["types"][nd["type"]]
+        ps = []
+        for j, ((form, slot), k) in enumerate(zip(ty["s"], nd["k"])):
+            p, k = vals[(f"n{ni}", f"s{form}j{slot}", "p")], Fr(k)
+            inc = [(s_, w) for s_, t, jj, w in case["edges"] if t == ni and jj == j]
+            r = sum(((Fr(1) if w is None else Fr(w)) * vals[(f"n{s_}", f"m{case['types'][case['nodes'][s_]['type']]['m']}", "v")]
+                     for s_, w in inc), Fr(0))
+            out.append([k * r - p, k * r - 2 * p * p, r - k * p][form])
+            ps.append(p)
+        v, c, p = vals[(f"n{ni}", f"m{ty['m']}", "v")], Fr(nd["c"]), sum(ps, Fr(0))
+        out.append([c * p - v, c * p * v - v + Fr(1, 2)][ty["m"]])
+    return out
+
+def gen_mo(rng):
+    ntypes = rng.randint(2, 3)
+    types = []
+    base_form = rng.randrange(len(S_FORMS))
+    while len(types) < ntypes:
+        r = rng.random()
+        if r < 0.6:      # same S form in 1..3 slots: types that differ only in the multiplicity / the names of identical operators
+            ns = rng.randint(1, 3)
+            slots = rng.sample([0, 1, 2], ns)
+            ty = dict(s=[[base_form, sl] for sl in sorted(slots)], m=0 if rng.random() < 0.7 else 1)
+        else:
+            ns = rng.randint(1, 2)
+            ty = dict(s=[[rng.randrange(len(S_FORMS)), sl] for sl in range(ns)], m=rng.randrange(2))
+        if ty not in types:
+            types.append(ty)
+    order = [ti for ti in range(ntypes) for _ in range(rng.choice([1, 2, 2, 3, 4]))]
+    rng.shuffle(order)
+    nodes = [dict(type=ti, k=[str(Fr(rng.randint(-8, 8), 4)) for _ in types[ti]["s"]], c=str(Fr(rng.randint(-8, 8), 4))) for ti in order]
+    N = len(nodes)
+    edges = []
+    dens = rng.choice([0.15, 0.3, 0.6])
+    for s_ in range(N):
+        for t in range(N):
+            for j in range(len(types[nodes[t]["type"]]["s"])):
+                if rng.random() < dens:
+                    edges.append([s_, t, j, None if rng.random() < 0.15 else str(Fr(rng.choice([-6, -4, -3, -2, -1, 1, 2, 3, 4]), 4))])
+    rng.shuffle(edges)
+    edges = edges[:50]
+    case = dict(mo=True, types=types, nodes=nodes, edges=edges)
+    nv = len(mo_vars(case))
+    case["states"] = [[str(Fr(rng.randint(-16, 16), 8)) for _ in range(nv)] for _ in range(2)]
+    return case
+
+def mo_disagrees(case, r):
+    for key in ("vec", "non"):
+        o = r[key]
+        if "raised" in o:
+            return True
+        for st, row in zip(case["states"], o["ok"]):
+            if isinstance(row, dict) or [Fr(v) for v in row] != py_spec_mo(case, st):
+                return True
+    return False
+
 def _raised(e, where):
     return {"raised": type(e).__name__, "where": where, "msg": str(e)[:160]}
 
@@ -72,9 +178,10 @@ def _vector_field(case, vec, tag):
     import numpy as np, pyr
     from copy import deepcopy
     raw = bool(case.get("raw"))
+    mo = bool(case.get("mo"))
     pyr.reset_pyrates()
     try:
-        c = deepcopy(build_raw(case) if raw else build(case))
+        c = deepcopy(build_raw(case) if raw else build_mo(case) if mo else build(case))
         try:
             func, args, arg_names, state_map = c.get_run_func("vf", 1e-3, file_name=f"m{tag}", backend="default", solver="euler",
                                                               vectorize=vec, float_precision="float64", in_place=True, clear=False, verbose=False)
@@ -82,13 +189,16 @@ def _vector_field(case, vec, tag):
             return _raised(e, "compile")
         if raw:
             names = [(n, ops_name, xv) for n, ops_name, xv in case["rstate_vars"]]
+        elif mo:
+            names = mo_vars(case)
         else:
             names = [(f"n{ni}", f"op{ci}", xname(case, ci)) for ni, (ci, k) in enumerate(case["nodes"])]
         # unit positions from the compiled template's own maps (read-only)
         pos = []
         for n, op, xv in names:
-            lbl = c._vectorization_labels.get(n, n)
-            sm = state_map[f"{lbl}/{op}/{xv}"]
+            lo = c._vectorization_labels.get(f"{n}/{op}")          # operator relabelled when merged under another name
+            key = f"{lo}/{xv}" if lo else f"{c._vectorization_labels.get(n, n)}/{op}/{xv}"
+            sm = state_map[key]
             base = sm[0] if isinstance(sm, (tuple, list)) else sm
             pos.append(int(base) + int(c._vectorization_indices[f"{n}/{op}/{xv}"][0]))
         if sorted(pos) != list(range(len(pos))):
@@ -158,7 +268,7 @@ def py_spec(case, st):
     for u in range(len(x)):
         cl = case["classes"][case["nodes"][u][0]]
         inc = [(s, w, sv) for s, t, w, sv in case["edges"] if t == u]
-        r = sum((Fr(w) * srcval(s, sv) for s, w, sv in inc), Fr(0)) if inc else Fr(cl["rdef"])
+        r = sum(((Fr(1) if w is None else Fr(w)) * srcval(s, sv) for s, w, sv in inc), Fr(0)) if inc else Fr(cl["rdef"])
         out.append(_peval(cl["f"], [x[u], kk[u], r]))
     return out
 
@@ -243,16 +353,19 @@ def gen_case(rng, kind="mixed"):
     fanout (one unit of a singleton class to many units: D32 boundary 9/10), clean (inside every guard), traj (linear, Euler)."""
     linear = kind == "traj"
     clean = kind in ("clean", "traj")
-    ncl = rng.randint(1, 3) if kind not in ("sparse", "fanout") else rng.randint(2, 3)
+    ncl = rng.randint(1, 3) if kind not in ("sparse", "fanout", "perm") else rng.randint(2, 3)
     classes = []
     while len(classes) < ncl:
-        cl = dict(f=gen_f(rng, linear, allow_const=not clean),
+        cl = dict(f=gen_f(rng, linear, allow_const=not clean and kind != "perm"),
                   g=gen_poly(rng, 2, 2, need=0, linear=linear) if rng.random() < 0.3 else None,
                   rdef="0" if (clean and rng.random() < 0.7) else _q(rng, [0, 0, 1, 7, -3, 5], [1, 2]))
         if all((c["f"], c["g"]) != (cl["f"], cl["g"]) for c in classes):
             classes.append(cl)
     if kind == "sparse":
         sizes = [rng.choice([10, 11, 12])] + [rng.choice([2, 3, 4]) for _ in range(ncl - 1)]
+    elif kind == "perm":
+        n0 = rng.choice([10, 11, 12])
+        sizes = [n0, n0] + [rng.choice([1, 2]) for _ in range(ncl - 2)]
     elif kind == "fanout":
         sizes = [rng.choice([9, 10, 11, 12]), 1] + [rng.choice([1, 2, 3]) for _ in range(ncl - 2)]
     elif kind == "traj":
@@ -277,25 +390,53 @@ def gen_case(rng, kind="mixed"):
         if rng.random() < 0.5 and ncl > 2:
             for t in rng.sample(of(0), 3):
                 edges.append([rng.choice(of(2)), t, wq()])
+    elif kind == "perm":
+        # one-to-one edges covering ALL units of the target vector (and all units of the source vector), >= 10 of them:
+        # indexed branch with index lists that are permutations of 0..n-1.  Shapes: ends fixed (first 0, last n-1) with
+        # the middle permuted; only the last fixed; identity; arbitrary.  Unit number = arrival order within the class.
+        n0 = sizes[0]
+        def perm():
+            r = rng.random()
+            mid = list(range(1, n0 - 1)); rng.shuffle(mid)
+            if r < 0.4:
+                return [0] + mid + [n0 - 1]
+            if r < 0.7:
+                p = list(range(n0 - 1)); rng.shuffle(p)
+                return p + [n0 - 1]
+            if r < 0.8:
+                return list(range(n0))
+            p = list(range(n0)); rng.shuffle(p)
+            return p
+        sc = rng.choice([0, 1, 1])                 # source class: the target class itself or the other big class
+        tp, sp = perm(), perm()
+        for k_ in range(n0):
+            edges.append([of(sc)[sp[k_]], of(0)[tp[k_]], "1" if rng.random() < 0.15 else wq()])
     elif kind == "fanout":
         tg = of(0); rng.shuffle(tg)
         for t in tg[:rng.choice([9, 9, 10, 11, 12])]:
             edges.append([of(1)[0], t, wq()])
         if rng.random() < 0.3:
             edges.append([of(1)[0], tg[0], wq()])   # a repeated target: dot branch again
-    dens = rng.choice([0.0, 0.05] if kind in ("sparse", "fanout") else [0.05, 0.15, 0.3, 0.6, 1.0])
+    dens = rng.choice([0.0, 0.05] if kind in ("sparse", "fanout", "perm") else [0.05, 0.15, 0.3, 0.6, 1.0])
     for s in range(N):
         for t in range(N):
             if kind in ("sparse", "fanout") and nodes[t][0] == 0 and nodes[s][0] == 1:
                 continue
+            if kind == "perm" and nodes[t][0] == 0 and nodes[s][0] in (0, 1):
+                continue
             if rng.random() < dens:
                 edges.append([s, t, wq()])
-    if rng.random() < 0.4 and edges and kind not in ("sparse",):
+    if rng.random() < 0.4 and edges and kind not in ("sparse", "perm"):
         for _ in range(rng.randint(1, 3)):        # parallel edges
             e = rng.choice(edges)
             edges.append([e[0], e[1], wq()])
-    rng.shuffle(edges)
+    if kind != "perm":
+        rng.shuffle(edges)
     edges = edges[:60]
+    if rng.random() < 0.35:                        # edges written without a 'weight' entry (default 1), mixed with weighted ones
+        for e in edges:
+            if rng.random() < 0.35:
+                e[2] = None
     svmode = rng.random()
     use_m = {ci: rng.random() < 0.7 for ci in range(ncl)}
     for e in edges:
@@ -323,6 +464,11 @@ def nontrivial(case):
     """some class has >= 2 units and receives >= 1 edge"""
     if case.get("raw"):
         return True
+    if case.get("mo"):
+        cnt = {}
+        for nd in case["nodes"]:
+            cnt[nd["type"]] = cnt.get(nd["type"], 0) + 1
+        return any(cnt[case["nodes"][e[1]]["type"]] >= 2 for e in case["edges"])
     cnt = {}
     for ci, _ in case["nodes"]:
         cnt[ci] = cnt.get(ci, 0) + 1
@@ -355,7 +501,7 @@ def coq_circuit(case):
     cls = [f"Cls {coq_poly(c['f'], 3)} {'None' if c['g'] is None else '(Some ' + coq_poly(c['g'], 2) + ')'} {cq(c['rdef'])}"
            for c in case["classes"]]
     nodes = [f"Node {ci} {cq(k)}" for ci, k in case["nodes"]]
-    edges = [f"Edge {s} {t} {cq(w)} {cbool(sv)}" for s, t, w, sv in case["edges"]]
+    edges = [f"Edge {s} {t} {copt(w, cq)} {cbool(sv)}" for s, t, w, sv in case["edges"]]
     return f"(Circ {clist(cls)} {clist(nodes)} {clist(edges)})"
 
 def coq_row(v):
@@ -417,16 +563,17 @@ def model_outputs(ctx, case, r, tag):
 def shrink(ctx, case):
     if case.get("raw"):
         return case
+    mo = bool(case.get("mo"))
     best = dict(case, states=case["states"][:1])
     best.pop("traj", None)
     budget = [24]
-    allowed = py_guards(case)
+    allowed = set() if mo else py_guards(case)
     def fails(c):
-        if not py_guards(c) <= allowed:          # do not drift into the class of another (known) finding
+        if not mo and not py_guards(c) <= allowed:          # do not drift into the class of another (known) finding
             return False
         budget[0] -= 1
         r = run_impl(ctx, "c04", "impl", [c], nworkers=1)[0]
-        return "err" in r or py_disagrees(c, r)
+        return "err" in r or (mo_disagrees(c, r) if mo else py_disagrees(c, r))
     if not fails(best):
         return case
     chunk = max(1, len(best["edges"]) // 2)
@@ -443,6 +590,19 @@ def shrink(ctx, case):
     return best
 
 # ---------------------------------------------------------------------------------------------- check
+def _mixed_group(c):
+    """some (source class, target class, source variable) group has a weightless edge after a weighted one, or the reverse"""
+    seen = {}
+    for s_, t, w, sv in c["edges"]:
+        key = (c["nodes"][s_][0], c["nodes"][t][0], sv)
+        seen.setdefault(key, set()).add(w is None)
+    return any(len(v) == 2 for v in seen.values())
+
+def _mult_only(c):
+    """two node types whose operator sets have the same structural hashes and differ only in multiplicity"""
+    sig = [(frozenset(f for f, _ in ty["s"]), ty["m"], len(ty["s"])) for ty in c["types"]]
+    return any(a[:2] == b[:2] and a[2] != b[2] for i, a in enumerate(sig) for b in sig[i + 1:])
+
 def raw_differs(r):
     v, n = r["vec"], r["non"]
     return ("raised" in v) != ("raised" in n) or ("ok" in v and v["ok"] != n["ok"])
@@ -450,8 +610,8 @@ def raw_differs(r):
 def check(ctx):
     pr = proof_gate(ctx, NEEDS)
     problem = proof_problem(pr)
-    plan = dict(mixed=100, clean=45, sparse=20, fanout=12, traj=16) if ctx.tier == "quick" else \
-           dict(mixed=1400, clean=500, sparse=250, fanout=150, traj=200)
+    plan = dict(mixed=90, clean=40, sparse=16, perm=24, fanout=10, traj=14, multiop=40) if ctx.tier == "quick" else \
+           dict(mixed=1400, clean=500, sparse=250, perm=300, fanout=150, traj=200, multiop=500)
     corpus_files = []
     if ctx.replay:
         rp = json.load(open(ctx.replay))
@@ -461,11 +621,12 @@ def check(ctx):
         corpus_files = sorted(f for f in os.listdir(cdir) if f.endswith(".json")) if os.path.isdir(cdir) else []
         cases = [json.load(open(os.path.join(cdir, f))) for f in corpus_files]
         for kind, n in plan.items():
-            cases += [gen_case(ctx.rng, kind) for _ in range(n * (3 if problem else 1))]
+            cases += [gen_mo(ctx.rng) if kind == "multiop" else gen_case(ctx.rng, kind) for _ in range(n * (3 if problem else 1))]
     outs = run_impl(ctx, "c04", "impl", cases, per_case_timeout=120)
     crashed = [i for i, r in enumerate(outs) if "err" in r]
     rawi = [i for i in range(len(cases)) if cases[i].get("raw") and i not in crashed]
-    good = [i for i in range(len(cases)) if i not in crashed and i not in rawi]
+    moi = [i for i in range(len(cases)) if cases[i].get("mo") and i not in crashed]
+    good = [i for i in range(len(cases)) if i not in crashed and i not in rawi and i not in moi]
     badI, badS, gv, wff = model_compare(ctx, [cases[i] for i in good], [outs[i] for i in good], "main")
     badI = [good[i] for i in badI]; badS = [good[i] for i in badS]
     guard_viol = {good[i]: g for i, g in gv.items()}
@@ -475,6 +636,8 @@ def check(ctx):
     for i in vec_ne_non:
         if i not in badS:
             badS.append(i)                          # cannot happen when the Coq comparison is right; never silently dropped
+    mo_bad = [i for i in moi if mo_disagrees(cases[i], outs[i])]     # multi-operator node types: real vec vs real non-vec vs python sum
+    badS += mo_bad
     for i in rawi:                                 # unmodelled family (D23): vec vs non-vec only
         if raw_differs(outs[i]):
             badS.append(i); guard_viol[i] = [RAW_GUARD]
@@ -491,8 +654,9 @@ def check(ctx):
         return by_file[w] in badS
     def show(c):
         r = run_impl(ctx, "c04", "impl", [c], nworkers=1)[0]
-        return dict(implementation_output=r, model_output=None if c.get("raw") or "err" in r else model_outputs(ctx, c, r, "show"),
-                    equations=None if c.get("raw") else [dict(f=poly_str(cl["f"], ["x", "k", "r"]), g=None if cl["g"] is None else poly_str(cl["g"], ["x", "k"]),
+        return dict(implementation_output=r, model_output=None if c.get("raw") or c.get("mo") or "err" in r else model_outputs(ctx, c, r, "show"),
+                    python_sum=[[str(v) for v in py_spec_mo(c, st)] for st in c["states"]] if c.get("mo") else None,
+                    equations=None if c.get("raw") or c.get("mo") else [dict(f=poly_str(cl["f"], ["x", "k", "r"]), g=None if cl["g"] is None else poly_str(cl["g"], ["x", "k"]),
                                                               r_default=cl["rdef"]) for cl in c["classes"]])
     conclude(ctx, cases=cases, impl_out=outs, bad_spec=sorted(badS), bad_impl=badI, crashed=crashed, problem=problem, guard_viol=guard_viol,
              spec_name="Vectorize.spec (unit-level edge sum; vectorize=True and vectorize=False must both equal it)",
@@ -501,7 +665,7 @@ def check(ctx):
     def branch_hist():
         h = dict(dot_candidates=0, indexed_ge10=0)
         for c in cases:
-            if c.get("raw"):
+            if c.get("raw") or c.get("mo"):
                 continue
             pairs = {}
             for s, t, w, sv in c["edges"]:
@@ -514,8 +678,12 @@ def check(ctx):
         return h
     hist = dict(kinds=plan, corpus=len(corpus_files), guard_violations={g: sum(1 for v in guard_viol.values() if g in v) for g in GUARDS + [RAW_GUARD]},
                 inside_all_guards=sum(1 for i in good if not guard_viol.get(i)), loud=loud, branches=branch_hist(),
-                with_parallel_edges=sum(1 for c in cases if not c.get("raw") and len({(e[0], e[1]) for e in c["edges"]}) < len(c["edges"])),
-                with_self_connection=sum(1 for c in cases if not c.get("raw") and any(e[0] == e[1] for e in c["edges"])),
+                with_parallel_edges=sum(1 for c in cases if not c.get("raw") and not c.get("mo") and len({(e[0], e[1]) for e in c["edges"]}) < len(c["edges"])),
+                with_self_connection=sum(1 for c in cases if not c.get("raw") and not c.get("mo") and any(e[0] == e[1] for e in c["edges"])),
+                with_weightless_edges=sum(1 for c in cases if not c.get("raw") and any(e[-2 if not c.get("mo") else -1] is None for e in c["edges"])),
+                weightless_after_weighted_in_group=sum(1 for c in cases if not c.get("raw") and not c.get("mo") and _mixed_group(c)),
+                multi_operator=dict(cases=len(moi), mismatches=len(mo_bad),
+                                    types_differing_only_in_multiplicity=sum(1 for i in moi if _mult_only(cases[i]))),
                 max_nodes=max((len(c.get("nodes", [])) for c in cases), default=0))
     sample = dict(cases[-1]) if cases else {}
     write_evidence(ctx, evaluations=2 * sum(len(c["states"]) for c in cases) + 2 * sum(1 for c in cases if c.get("traj")),
